@@ -28,7 +28,7 @@ func VerifConnFailure() {
 	conn.failAt = verifInt(0, verifParam("K")) // 0: no fault, the connection is closed externally
 	conn.partial = verifInt(0, 1)
 	dialer := func(ctx context.Context, network, addr string) (net.Conn, error) { return conn, nil }
-	rc := NewClient("rs:1", RegionClient, 2, 0, "user", 0, nil, dialer, nil)
+	rc := NewClient("rs:1", RegionClient, 2, 0, "user", 0, nil, dialer, vLogger())
 	c := rc.(*client)
 	c.readTimeout = 1000000000
 	err := c.Dial(context.Background())
